@@ -25,6 +25,15 @@ where
     Some(Built { debug: format!("{x:?}"), enc, dec })
 }
 
+fn decode_eq<T>(bytes: &[u8], v: &Val) -> Option<bool>
+where
+    T: FromVal + ZvtSerializer + Debug + PartialEq,
+    encoding::Default: encoding::Encoding<T>,
+{
+    let x = T::from_val(v)?;
+    Some(matches!(T::zvt_deserialize(bytes), Ok((y, _)) if y == x))
+}
+
 macro_rules! shapes {
     ($($key:literal => $ty:ty { $($f:ident),* $(,)? }),* $(,)?) => {
         $(
@@ -41,6 +50,12 @@ macro_rules! shapes {
         pub fn build_raw(key: &str, v: &Val) -> Option<Built> {
             match key {
                 $($key => build::<$ty>(v),)*
+                _ => None,
+            }
+        }
+        pub fn decode_eq_raw(key: &str, bytes: &[u8], v: &Val) -> Option<bool> {
+            match key {
+                $($key => decode_eq::<$ty>(bytes, v),)*
                 _ => None,
             }
         }
@@ -117,4 +132,8 @@ impl FromVal for p::tlv::StatusEnquiry {
     fn from_val(_: &Val) -> Option<Self> {
         None
     }
+}
+
+pub fn decode_eq_type(key: &str, bytes: &[u8], v: &Val) -> Option<bool> {
+    guarded(|| decode_eq_raw(key, bytes, v)).ok().flatten()
 }
